@@ -95,10 +95,14 @@ impl ListenerShared {
 
 	#[must_use]
 	pub fn is_marked_for_removal(&self) -> bool {
+		#[cfg(kira_verif)]
+		crate::verif::yield_point("listener.removed.load");
 		self.removed.load(Ordering::SeqCst)
 	}
 
 	pub fn mark_for_removal(&self) {
+		#[cfg(kira_verif)]
+		crate::verif::yield_point("listener.removed.store");
 		self.removed.store(true, Ordering::SeqCst);
 	}
 }
